@@ -513,8 +513,15 @@ def run(prog, rep, tier):
         def size_only(v):          # len(A) / A.shape[k]: a size, not the matrix
             return (v[0] == "ext" and v[1] == "len") or (v[0] == "sub" and v[1][0] == "attr" and v[1][2] == "shape") or (v[0] == "attr" and v[2] == "shape")
         st = [s for s in stores if ("param", "A") in atoms(s.value) and s.attr != "ordering" and not size_only(s.value)]
-        rep.check("GATE.anm.stored", bool(st) and all(derives_patternwise(s.value, "A") for s in st),
-                  fwhere(f3), "the stored matrix is (a copy of) the checked one", "the stored matrix is not the checked one")
+        # the matrix the sampler reads is self.A; other attributes computed from A (cached parent lists, counts) are not "the stored matrix"
+        stA = [s for s in st if s.attr == "A"]
+        if stA:
+            rep.decide("GATE.anm.stored", all(derives_patternwise(s.value, "A") for s in stA),
+                       fwhere(f3), "the stored matrix is (a copy of) the checked one", "the stored matrix is not the checked one")
+        elif st:
+            rep.unk("GATE.anm.stored", fwhere(f3), "no attribute `A` is stored; which of %s is the matrix the sampler reads is not decided" % sorted({s.attr for s in st}))
+        else:
+            rep.bad("GATE.anm.stored", fwhere(f3), "the constructor stores nothing derived from the checked matrix")
     # DRFNet delegates to BayesianNetwork.__init__ with the same graph, first thing
     f4 = need(prog, "sempler.semi.DRFNet.__init__")
     S4 = Sym(prog)
